@@ -65,8 +65,10 @@ def r1(ctx, chk):
     f = ix.func(FP + ":FreshnessDateDataParser._are_all_words_units")
     skip = None
     for n in iter_own_nodes(f.node):
-        if isinstance(n, ast.Assign) and any(isinstance(t, ast.Name) and t.id == "skip" for t in n.targets):
-            skip = fold_list(n.value, f, ix)
+        if isinstance(n, ast.Assign) and isinstance(n.value, ast.List) and len(n.value.elts) >= 2:
+            v = fold_list(n.value, f, ix)
+            if v is not None and any("ago" in x for x in v):
+                skip = v
     if skip is None:
         raise AnalysisError(rule, "_are_all_words_units.skip is not a list of constant patterns")
     import regex as re
@@ -260,13 +262,18 @@ def r4(ctx, chk):
            key={"function": f.key, "construct": "kwargs[unit + 's'] = float(num)"}, file=f.file, function=f.qual,
            line=f.node.lineno)
     # decade folding: years := 10*decades + years ; del decades
-    syms = {"D": {"kwargs['decades']"}, "Y": {"kwargs.get('years', 0)", "kwargs['years']"}}
+    # the dict that is returned (robust to its local name)
+    rets = [n.value.id for n in iter_own_nodes(f.node) if isinstance(n, ast.Return) and isinstance(n.value, ast.Name)]
+    if not rets:
+        raise AnalysisError(rule, "get_kwargs does not return a local dict")
+    kw = rets[-1]
+    syms = {"D": {"%s['decades']" % kw}, "Y": {"%s.get('years', 0)" % kw, "%s['years']" % kw}}
     fold = None
     for n in iter_own_nodes(f.node):
-        if isinstance(n, ast.Assign) and ast.unparse(n.targets[0]) == "kwargs['years']":
+        if isinstance(n, ast.Assign) and ast.unparse(n.targets[0]) == "%s['years']" % kw:
             fold = _linear(n.value, syms)
             line = n.lineno
-        elif isinstance(n, ast.AugAssign) and ast.unparse(n.target) == "kwargs['years']" and isinstance(n.op, ast.Add):
+        elif isinstance(n, ast.AugAssign) and ast.unparse(n.target) == "%s['years']" % kw and isinstance(n.op, ast.Add):
             fold = _linear(n.value, syms)
             if fold is not None:
                 fold["Y"] = fold.get("Y", 0) + 1
@@ -277,7 +284,7 @@ def r4(ctx, chk):
            key={"function": f.key, "construct": "years = 10*decades + years"}, file=f.file, function=f.qual,
            line=f.node.lineno)
     dels = [ast.unparse(t) for n in iter_own_nodes(f.node) if isinstance(n, ast.Delete) for t in n.targets]
-    chk.ob(rule, "the decades key is deleted before relativedelta", "kwargs['decades']" in dels, "",
+    chk.ob(rule, "the decades key is deleted before relativedelta", "%s['decades']" % kw in dels, "",
            key={"function": f.key, "construct": "del kwargs['decades']"}, file=f.file, function=f.qual,
            line=f.node.lineno)
     # every (num, unit) match contributes (several units add up): a loop over PATTERN.findall
@@ -324,10 +331,19 @@ def r5(ctx, chk):
             chk.ob(rule, "week/month/year periods only when the phrase counts no days", guarded, "",
                    key={"function": f.key, "construct": "period days guard"}, file=f.file, function=f.qual, line=n.lineno)
     chk.floor(rule, found, 1, "period selection loops")
-    init = [n for n in iter_own_nodes(f.node) if isinstance(n, ast.Assign) and ast.unparse(n.targets[0]) == "period"
+    pname = _period_name(f)
+    init = [n for n in iter_own_nodes(f.node) if isinstance(n, ast.Assign) and ast.unparse(n.targets[0]) == pname
             and isinstance(n.value, ast.Constant)]
     chk.ob(rule, "default period is 'day'", any(n.value.value == "day" for n in init), "",
            key={"function": f.key, "construct": "default period"}, file=f.file, function=f.qual, line=f.node.lineno)
+
+
+def _period_name(f):
+    """the local returned as the second element of `return <date>, <period>`"""
+    for n in iter_own_nodes(f.node):
+        if isinstance(n, ast.Return) and isinstance(n.value, ast.Tuple) and len(n.value.elts) == 2 and isinstance(n.value.elts[1], ast.Name):
+            return n.value.elts[1].id
+    return "period"
 
 
 def r6(ctx, chk):
@@ -359,7 +375,7 @@ def r6(ctx, chk):
     ok = False
     for n in iter_own_nodes(f.node):
         if isinstance(n, ast.If) and "RETURN_TIME_AS_PERIOD" in ast.unparse(n.test):
-            if any(isinstance(x, ast.Assign) and ast.unparse(x.targets[0]) == "period" and isinstance(x.value, ast.Constant)
+            if any(isinstance(x, ast.Assign) and ast.unparse(x.targets[0]) == _period_name(f) and isinstance(x.value, ast.Constant)
                    and x.value.value == "time" for x in n.body):
                 ok = True
     chk.ob(rule, "period becomes 'time' only under RETURN_TIME_AS_PERIOD", ok, "",
